@@ -580,3 +580,45 @@ def commsym(repo):
     res.samples = [f"{[f.name for f in targets]}: operand pairs are symmetric"]
     res.analysed = [m.rel]
     return res
+
+
+
+def boundinf(repo):
+    """R-BOUNDINF (C16/C05): `$upper_bound(x)` / `$lower_bound(x)` copy a bound of x into the *value* of a constant
+    expression.  A bound can be the string "infinity"; a constant whose value is "infinity" crashes every later
+    `int(...)`.  In the function that implements the two builtins, the assignment that makes the result constant
+    (`modulus = "infinity"`) must be dominated by a test that the copied bound is finite."""
+    res = RuleResult("R-BOUNDINF")
+    m = repo.mod("compiler/front_end/expression_bounds.py")
+    f = None
+    for g in m.top_funcs():
+        src = m.seg(g.node)
+        if "UPPER_BOUND" in src and "LOWER_BOUND" in src and "maximum_value" in src and "modular_value" in src:
+            f = g
+    if f is None:
+        raise AnalysisError("expression_bounds: the $upper_bound/$lower_bound transfer function was not found")
+    consts = [n for n in walk_no_nested_funcs(f.node) if isinstance(n, ast.Assign) and ast.unparse(n.targets[0]).endswith(".modulus")
+              and isinstance(n.value, ast.Constant) and n.value.value == "infinity"]
+    if not consts:
+        raise AnalysisError(f"{f.name}: no assignment making the result constant")
+    for a in consts:
+        res.instances += 1
+        guarded = False
+        for st in f.node.body:
+            if st.lineno >= a.lineno:
+                break
+            if isinstance(st, ast.If) and isinstance(st.body[-1], ast.Return) and "infinity" in ast.unparse(st.test):
+                guarded = True
+        cur = m.parent(a)
+        while cur is not None and cur is not f.node:
+            if isinstance(cur, ast.If) and "infinity" in ast.unparse(cur.test):
+                guarded = True
+            cur = m.parent(cur)
+        if not guarded:
+            res.add(f"{m.rel}|{f.name}|infinite-constant", f"{f.name} makes its result a constant whose value is a bound of the argument "
+                    "without excluding \"infinity\"/\"-infinity\": for `1 [+n] UInt x`, `$upper_bound(x) * 2` ends in ValueError "
+                    "(int(\"infinity\")) instead of a diagnostic", m.rel, a.lineno, f.name)
+        else:
+            res.samples.append(f"{f.name}: constant result only for finite bounds")
+    res.analysed = [m.rel]
+    return res
